@@ -107,7 +107,7 @@ func runRace(toks []string) (string, string) {
 		path := filepath.Join(dir, "f.warc")
 		os.WriteFile(path, bytes.Repeat(wire, 3), 0o644)
 		run(func(g int) {
-			for i := 0; i < 4; i++ {
+			for i := 0; i < 12; i++ { // read to the end and close, again and again: pooled buffers change hands
 				u := gowarc.NewUnmarshaler(gowarc.WithBufferTmpDir(tmp))
 				r2, _, _, err := u.Unmarshal(bufio.NewReader(bytes.NewReader(wire)))
 				if err == nil {
